@@ -13,7 +13,7 @@ PROPS = {
     'C02': {'units': ['expr', 'lower', 'opt', 'fuse', 'fvalid', 'optm', 'run19'], 'kani': K_ANALYSIS + [{'crate': 'p3-circuit', 'harness': 'c02_allocator_monotone'}]},
     'C03': {'units': ['opt', 'fuse', 'fvalid', 'optm'], 'kani': K_ANALYSIS},
     'C19': {'units': ['run19', 'pexec'], 'kani': K_CONTEXT},
-    'C20': {'units': ['gad', 'quot', 'fri', 'periodic'], 'kani': [], 'only': {'fri': r'evaluate_polynomial|circuit_exp_by_constant|lemma_'}},
+    'C20': {'units': ['gad', 'quot', 'fri', 'periodic', 'fquery'], 'kani': [], 'only': {'fri': r'evaluate_polynomial|circuit_exp_by_constant|lemma_', 'fquery': r'final_query_point'}},
     'C07': {'units': ['fri', 'shape', 'fold', 'fchain', 'fquery', 'evpts', 'openin'], 'kani': [], 'only': {'shape': r'verify_fri_circuit'}, 'exclude': r'possible (bit shift|arithmetic)'},
     'C05': {'units': ['chal', 'coef'], 'kani': [], 'exclude': r'canonical_width', 'only': {'coef': r'select_path'}},
     'C06': {'units': ['bind', 'pchain'], 'kani': []},
